@@ -64,6 +64,12 @@ Definition tick (nsubs : nat) (h t : Z) (e : epoch_info) : epoch_info * list eve
       (mkEI (ei_id e) (ei_start e) (ei_dur e) (ei_cur e + 1) end_time true h,
        fanout nsubs EvEnd (ei_id e) (ei_cur e) ++ fanout nsubs EvStart (ei_id e) (ei_cur e + 1)).
 
+(* the two state changes a tick can make *)
+Definition first_of (h : Z) (e : epoch_info) : epoch_info :=
+  mkEI (ei_id e) (ei_start e) (ei_dur e) 1 (ei_start e) true h.
+Definition next_of (h : Z) (e : epoch_info) : epoch_info :=
+  mkEI (ei_id e) (ei_start e) (ei_dur e) (ei_cur e + 1) (ei_cur_start e + ei_dur e) true h.
+
 (* BeginBlocker: walk the store in key order; every write goes to the key of the entry just read
    (setEpochInfoUnchecked keys by Identifier, and every stored entry is keyed by its Identifier). *)
 Fixpoint begin_block (nsubs : nat) (h t : Z) (st : store epoch_info) : store epoch_info * list event :=
@@ -91,9 +97,14 @@ Fixpoint run (nsubs : nat) (st : store epoch_info) (blocks : list (Z * Z)) : sto
 
 (* ---- correspondence cases (written by the harness) ---- *)
 Record blk := mkBlk { b_height : Z; b_time : Z; b_events : list event; b_infos : list epoch_info }.
+(* [c_inject]: entries the harness wrote straight into the module store after InitGenesis (the only way an
+   entry that fails Validate can get there); [c_after_gen] is observed after genesis + injection. *)
 Record case := mkCase {
   c_subs : list string; c_gen_height : Z; c_gen_time : Z;
-  c_genesis : list epoch_info; c_after_gen : list epoch_info; c_blocks : list blk }.
+  c_genesis : list epoch_info; c_inject : list epoch_info; c_after_gen : list epoch_info; c_blocks : list blk }.
+
+(* setEpochInfoUnchecked *)
+Definition inject (st : store epoch_info) (e : epoch_info) : store epoch_info := sset st (ei_id e) e.
 
 Definition ei_eqb (a b : epoch_info) : bool :=
   String.eqb (ei_id a) (ei_id b) && (ei_start a =? ei_start b) && (ei_dur a =? ei_dur b) &&
@@ -121,7 +132,7 @@ Fixpoint check_blocks (nsubs : nat) (st : store epoch_info) (bs : list blk) (i :
 Definition check_case (c : case) : option nat :=
   if negb (list_eqb String.eqb (c_subs c) subscribers) then Some 0%nat
   else
-    let st := init_genesis (c_gen_height c) (c_gen_time c) (c_genesis c) in
+    let st := fold_left inject (c_inject c) (init_genesis (c_gen_height c) (c_gen_time c) (c_genesis c)) in
     if negb (list_eqb ei_eqb (map snd st) (c_after_gen c)) then Some 1%nat
     else check_blocks (List.length subscribers) st (c_blocks c) 2.
 
@@ -169,3 +180,204 @@ Definition monitor_case (c : case) : option nat :=
   if negb (list_eqb String.eqb (c_subs c) subscribers) then Some 0%nat
   else monitor_blocks (List.length (c_subs c)) (c_after_gen c) (c_blocks c) 2.
 
+(* ================================================================================================
+   Whole-history vocabulary (used by the theorems of Props.v and by the whole-history monitors)
+   ================================================================================================ *)
+
+(* the trajectory of ONE epoch info over a list of blocks (height, time) *)
+Fixpoint run1 (nsubs : nat) (e : epoch_info) (blocks : list (Z * Z)) : epoch_info * list (list event) :=
+  match blocks with
+  | [] => (e, [])
+  | (h, t) :: r =>
+      let '(e', ev) := tick nsubs h t e in
+      let '(e'', evs) := run1 nsubs e' r in
+      (e'', ev :: evs)
+  end.
+
+Definition infos (st : store epoch_info) : list epoch_info := map snd st.
+Definition ids (st : store epoch_info) : list string := map (fun p => ei_id (snd p)) st.
+
+(* the entry of identifier [id] in a store *)
+Definition entry (id : string) (st : store epoch_info) : option epoch_info := find_info id (infos st).
+
+(* projection of a run on one identifier: its final entry and, per block, its notifications *)
+Definition proj (id : string) (r : store epoch_info * list (list event)) : option epoch_info * list (list event) :=
+  (entry id (fst r), map (events_of id) (snd r)).
+
+(* the store with every other identifier removed *)
+Definition only (id : string) (st : store epoch_info) : store epoch_info :=
+  filter (fun p => String.eqb (ei_id (snd p)) id) st.
+
+(* the whole notification log of one identifier over a history *)
+Definition log_of (id : string) (evs : list (list event)) : list event := List.concat (map (events_of id) evs).
+
+Fixpoint distinctb (l : list string) : bool :=
+  match l with
+  | [] => true
+  | a :: r => negb (existsb (String.eqb a) r) && distinctb r
+  end.
+
+(* identifiers are pairwise distinct (every entry is stored under its identifier) *)
+Definition store_ok (st : store epoch_info) : bool := distinctb (ids st).
+
+(* block heights are non-negative (they are >= 1 on a chain) and block times do not decrease *)
+Fixpoint times_ok (blocks : list (Z * Z)) : bool :=
+  match blocks with
+  | [] => true
+  | (h, t) :: r =>
+      (0 <=? h) && forallb (fun b => t <=? snd b) r && times_ok r
+  end.
+
+(* end(c) start(c+1) end(c+1) start(c+2) ... : k consecutive epoch changes starting from number c,
+   every notification fanned out to subscribers 0..nsubs-1 in order *)
+Fixpoint pairs (nsubs : nat) (id : string) (c : Z) (k : nat) : list event :=
+  match k with
+  | O => []
+  | S k' => fanout nsubs EvEnd id c ++ fanout nsubs EvStart id (c + 1) ++ pairs nsubs id (c + 1) k'
+  end.
+
+(* the notification log an identifier must have produced between entry [e0] (before) and [ef] (after) *)
+Definition expected_log (nsubs : nat) (e0 ef : epoch_info) : list event :=
+  if ei_started e0 then pairs nsubs (ei_id e0) (ei_cur e0) (Z.to_nat (ei_cur ef - ei_cur e0))
+  else if ei_started ef then
+    fanout nsubs EvStart (ei_id e0) 1 ++ pairs nsubs (ei_id e0) 1 (Z.to_nat (ei_cur ef - 1))
+  else [].
+
+(* position of a notification in the per-identifier order: start(1) < end(1) < start(2) < end(2) < ...,
+   and within one notification subscriber 0 < 1 < ... *)
+Definition ev_rank (nsubs : nat) (e : event) : Z :=
+  (2 * ev_num e + match ev_k e with EvStart => 0 | EvEnd => 1 end) * Z.of_nat nsubs + Z.of_nat (ev_sub e).
+
+(* the start-time law and the shape of a started counter *)
+Definition clock_inv (e : epoch_info) : Prop :=
+  ei_started e = true -> 1 <= ei_cur e /\ ei_cur_start e = ei_start e + (ei_cur e - 1) * ei_dur e.
+
+Definition clock_invb (e : epoch_info) : bool :=
+  negb (ei_started e) || ((1 <=? ei_cur e) && (ei_cur_start e =? ei_start e + (ei_cur e - 1) * ei_dur e)).
+
+(* ---- whole-history monitor: parses the OBSERVED log of one identifier ---- *)
+Fixpoint strip_prefix (p l : list event) : option (list event) :=
+  match p with
+  | [] => Some l
+  | a :: p' => match l with
+               | [] => None
+               | b :: l' => if ev_eqb a b then strip_prefix p' l' else None
+               end
+  end.
+
+(* consumes end(c) start(c+1) end(c+1) start(c+2) ... and returns the last number started *)
+Fixpoint pairs_ok (fuel : nat) (nsubs : nat) (id : string) (c : Z) (log : list event) : option Z :=
+  match log with
+  | [] => Some c
+  | _ :: _ =>
+      match fuel with
+      | O => None
+      | S f =>
+          match strip_prefix (fanout nsubs EvEnd id c ++ fanout nsubs EvStart id (c + 1)) log with
+          | Some rest => pairs_ok f nsubs id (c + 1) rest
+          | None => None
+          end
+      end
+  end.
+
+(* The hook-sequence statement of C15 for one identifier over a whole history, as a boolean on
+   observations only: [e0] = entry before the history, [ef] = entry after it, [log] = every notification
+   of that identifier in delivery order. *)
+Definition hook_hist_ok (nsubs : nat) (e0 ef : epoch_info) (log : list event) : bool :=
+  if ei_started e0 then
+    match pairs_ok (List.length log) nsubs (ei_id e0) (ei_cur e0) log with
+    | Some c => (c =? ei_cur ef) && ei_started ef
+    | None => false
+    end
+  else if ei_started ef then
+    match strip_prefix (fanout nsubs EvStart (ei_id e0) 1) log with
+    | Some rest =>
+        match pairs_ok (List.length rest) nsubs (ei_id e0) 1 rest with
+        | Some c => c =? ei_cur ef
+        | None => false
+        end
+    | None => false
+    end
+  else match log with [] => ei_eqb e0 ef | _ :: _ => false end.
+
+Fixpoint last_infos (d : list epoch_info) (bs : list blk) : list epoch_info :=
+  match bs with
+  | [] => d
+  | b :: r => last_infos (b_infos b) r
+  end.
+
+(* observed per-identifier facts that only make sense over a whole history *)
+Definition hist_ok (nsubs : nat) (init : list epoch_info) (bs : list blk) : bool :=
+  let fin := last_infos init bs in
+  let evs := map b_events bs in
+  distinctb (map ei_id init) &&
+  forallb (fun e0 =>
+             match find_info (ei_id e0) fin with
+             | None => false
+             | Some ef =>
+                 hook_hist_ok nsubs e0 ef (log_of (ei_id e0) evs) &&
+                 (* configuration frozen *)
+                 (ei_start ef =? ei_start e0) && (ei_dur ef =? ei_dur e0) &&
+                 (* start-time law, for entries that satisfied it before the history *)
+                 (negb (clock_invb e0) || clock_invb ef) &&
+                 (* invalid entries are frozen *)
+                 (validate e0 || ei_eqb e0 ef) &&
+                 (* never decreases, at most one epoch per block (C15_monotone) *)
+                 (if ei_started e0 || (ei_cur e0 =? 0)
+                  then (ei_cur e0 <=? ei_cur ef) && (ei_cur ef <=? ei_cur e0 + Z.of_nat (List.length bs))
+                  else true) &&
+                 (negb (ei_started e0) || ei_started ef)
+             end) init.
+
+(* Some 1 = a whole-history statement is false; block-level failures are reported by monitor_case *)
+Definition monitor_hist_case (c : case) : option nat :=
+  if negb (list_eqb String.eqb (c_subs c) subscribers) then Some 0%nat
+  else if hist_ok (List.length (c_subs c)) (c_after_gen c) (c_blocks c) then None else Some 1%nat.
+
+(* ---- second suite: the REAL application's BeginBlock (all real hooks wired as in app.go) ----
+   The harness observes AllEpochInfos before the segment and after every block. Hook invocations are
+   observed on the REAL hooks: every element of the app's MultiEpochHooks slice is wrapped in place by a
+   recorder that logs (kind, identifier, number, position) and then calls the real hook. [a_abci] holds, per
+   block, the epoch_end / epoch_start ABCI events of BeginBlock (one per notification, recorded with
+   ev_sub = 0). [a_subs] is the hook order read from the app by reflection before wrapping. *)
+Record acase := mkACase { a_subs : list string; a_init : list epoch_info; a_blocks : list blk;
+                          a_abci : list (list event) }.
+
+Definition store_of (l : list epoch_info) : store epoch_info := map (fun e => (ei_id e, e)) l.
+
+Definition sub0 (l : list event) : list event := filter (fun e => Nat.eqb (ev_sub e) 0) l.
+
+(* the emitted ABCI events are what the model delivers to subscriber 0 *)
+Fixpoint check_abci (nsubs : nat) (st : store epoch_info) (bs : list blk) (abci : list (list event)) (i : nat)
+  : option nat :=
+  match bs, abci with
+  | [], [] => None
+  | b :: r, a :: ar =>
+      let '(st', ev) := begin_block nsubs (b_height b) (b_time b) st in
+      if list_eqb ev_eqb (sub0 ev) a then check_abci nsubs st' r ar (S i) else Some i
+  | _, _ => Some i
+  end.
+
+Definition check_acase (c : acase) : option nat :=
+  if negb (list_eqb String.eqb (a_subs c) subscribers) then Some 0%nat
+  else match check_blocks (List.length subscribers) (store_of (a_init c)) (a_blocks c) 2 with
+       | Some i => Some i
+       | None => check_abci (List.length subscribers) (store_of (a_init c)) (a_blocks c) (a_abci c) 2
+       end.
+
+(* observation-only: emitted events = notifications delivered to the first subscriber, block by block *)
+Fixpoint abci_ok (bs : list blk) (abci : list (list event)) (i : nat) : option nat :=
+  match bs, abci with
+  | [], [] => None
+  | b :: r, a :: ar => if list_eqb ev_eqb (sub0 (b_events b)) a then abci_ok r ar (S i) else Some i
+  | _, _ => Some i
+  end.
+
+Definition monitor_acase (c : acase) : option nat :=
+  if negb (list_eqb String.eqb (a_subs c) subscribers) then Some 0%nat
+  else match monitor_blocks (List.length (a_subs c)) (a_init c) (a_blocks c) 2 with
+       | Some i => Some i
+       | None =>
+           if hist_ok (List.length (a_subs c)) (a_init c) (a_blocks c)
+           then abci_ok (a_blocks c) (a_abci c) 2 else Some 1%nat
+       end.
